@@ -528,13 +528,20 @@ def s18c_validate_boxes(ctx):
         return vals, ex
 
     cases = []
-    for p in ('open', 'high', 'low', 'close'):
-        if p in ('high', 'close'):
-            # a non-positive high/close is rejected either by its own test or through the ordering clause by a positive low; the cases
-            # low <= 0 and low = NaN are the (unconditional) boxes of `low` below, so the three together cover every candle
-            cases.append(('%s<=0,low>0' % p, {p: ('float', -INF, 0.0, False), 'low': ('float', TINY, INF, False)}, False))
-        else:
-            cases.append(('%s<=0' % p, {p: ('float', -INF, 0.0, False)}, False))
+    import itertools
+    NONPOS = ('float', -INF, 0.0, False)
+    POS = ('float', TINY, INF, False)
+    NAN = ('nan',)
+    prices = ('open', 'high', 'low', 'close')
+    for p in prices:
+        # a non-positive price is rejected whatever the others are: the others are split into sign classes (<= 0, > 0, NaN) so that
+        # an implementation that relies on the ordering clause (low > 0 and low <= close <= high imply close, high > 0) is decided too
+        others = [q for q in prices if q != p]
+        for combo in itertools.product((('<=0', NONPOS), ('>0', POS), ('NaN', NAN)), repeat=len(others)):
+            box = {p: NONPOS}
+            for q, (cl, v) in zip(others, combo):
+                box[q] = v
+            cases.append(('%s<=0 [%s]' % (p, ','.join('%s%s' % (q, cl) for q, (cl, v) in zip(others, combo))), box, False))
         cases.append(('%s=NaN' % p, {p: ('nan',)}, False))
         cases.append(('%s=+inf' % p, {p: ('float', INF, INF, False)}, False))
     cases.append(('volume<0', {'volume': ('float', -INF, -TINY, False)}, False))
@@ -548,21 +555,10 @@ def s18c_validate_boxes(ctx):
                                       'volume': ('float', 0.0, 0.0, False)}, True))
     b0 = f.bodies[bid]
     for label, box, want in cases:
-        box2 = {}
-        nan_of = None
-        for k, v in box.items():
-            if v == ('nan',):
-                nan_of = k
-                box2[k] = None
-            else:
-                box2[k] = v
+        box2 = {k: (('float', INF, -INF, True) if v == ('nan',) else v) for k, v in box.items()}       # ('nan',) = certainly NaN
         key = 'validate|' + label
         r.inst(key)
-        if nan_of:
-            box2[nan_of] = ('float', INF, -INF, True)       # certainly NaN
-            vals, ex = run(box2)
-        else:
-            vals, ex = run(box2)
+        vals, ex = run(box2)
         if vals is None:
             r.violate(key + '|budget', 'analysis budget exceeded', b0['file'], b0['line'])
             continue
@@ -570,8 +566,9 @@ def s18c_validate_boxes(ctx):
             r.violate(key + '|' + ('accepts' if want is False else 'rejects'), 'OHLCV::validate can return %s for candles with %s (expected %s for every such candle)' % (
                 sorted(str(x) for x in vals - {want}), label, want), b0['file'], b0['line'])
         else:
-            r.sample({'box': label, 'validate': want})
-    r.floor('validate boxes', 18, len(cases))
+            if len(r.samples) < 8 or want:
+                r.sample({'box': label, 'validate': want})
+    r.floor('validate boxes', 120, len(cases))
     return r
 
 
